@@ -40,13 +40,16 @@ def plan(tier, seed):
         for p in range(parts):
             jobs.append({"name": "mut%02d_%d" % (ci, p), "spec": {"kind": "mutate", "curve": ci, "part": p, "parts": parts}})
     jobs.append({"name": "bec2hdr", "spec": {"kind": "bec2"}})
+    # the very FIRST decodes of a process made by several threads at once (reader threads starting up): each shard is a fresh process
+    for i in range(6 if tier == "quick" else 48):
+        jobs.append({"name": "firstuse%02d" % i, "spec": {"kind": "firstuse", "i": i}})
     return jobs
 
 
 def mandatory_bins(tier):
     b = ["curve_roundtrip", "pub_raw", "pub_uncompressed", "pub_compressed", "pub_hybrid", "pub_der_named", "pub_der_explicit", "pub_pem", "priv_raw", "priv_sec1_named", "priv_sec1_explicit",
          "priv_pkcs8_named", "priv_pkcs8_explicit", "priv_pem", "openssl_parses_library_output", "library_parses_openssl_output", "byte_equal_spki", "byte_equal_sec1", "leading_zero_coordinate",
-         "leading_zero_scalar", "small_scalar", "p256_header", "raw_fmt_inverse", "reencode_after_decode", "bec2_raw_key_wrong_length", "bec2_der_input_in_non_canonical_form", "all_prefixes", "appended_suffix", "single_byte_mutations", "pem_cut", "openssl_compressed_spki", "openssl_explicit_params", "explicit_parameters_base_point_form", "pem_text_variants", "encodings_given_as_bytearray_or_memoryview", "pkcs8_with_attributes"]
+         "leading_zero_scalar", "small_scalar", "p256_header", "raw_fmt_inverse", "reencode_after_decode", "bec2_raw_key_wrong_length", "bec2_der_input_in_non_canonical_form", "all_prefixes", "appended_suffix", "single_byte_mutations", "pem_cut", "openssl_compressed_spki", "openssl_explicit_params", "explicit_parameters_base_point_form", "pem_text_variants", "encodings_given_as_bytearray_or_memoryview", "pkcs8_with_attributes", "first_decodes_of_the_process_made_by_concurrent_threads"]
     return b
 
 
@@ -463,10 +466,93 @@ def run_bec2(ns, ctx, spec):
     ctx.sample({"kind": "bec2", "header": P256_HEADER})
 
 
+def run_firstuse(ns, ctx, spec):
+    """Named-curve keys written by OpenSSL, decoded for the first time in this process by several threads at once, with a yield after
+    every source line of the curve lookup / DER / key loading code.  Each must decode to the key OpenSSL encoded; afterwards the same
+    decodes are repeated sequentially (and must agree)."""
+    from ..sched import yieldrun
+
+    K = ns.keys
+    rng = ctx.rng
+    curves = weierstrass_curves(ns)
+    i = spec["i"]
+    nthreads = (2, 3, 5, 8)[i % 4]
+    route = ("spki", "sec1", "pkcs8", "pem_pub", "mixed", "plugin")[i % 6]
+    # late entries of the curve list first: they are what an incompletely initialised lookup would miss
+    order = list(reversed(curves)) if i % 2 == 0 else rng.sample(curves, len(curves))
+    picks = order[:nthreads]
+    bodies = []
+    meta = []
+    for j, cv in enumerate(picks):
+        name = cv.openssl_name
+        d = rng.randrange(1, int(cv.order))
+        pub = ossl.point_mul(name, d)
+        r = route if route != "mixed" else ("spki", "sec1", "pkcs8", "pem_pub")[j % 4]
+        if r == "plugin" and cv.name != "NIST256p":
+            r = "spki"
+        if r == "spki":
+            enc = ossl.pub_to_spki(name, pub)
+            fn = lambda enc=enc: K.VerifyingKey.from_der(enc)  # noqa
+            pred = "pub"
+        elif r == "pem_pub":
+            enc = pem_armor(ossl.pub_to_spki(name, pub), "PUBLIC KEY")
+            fn = lambda enc=enc: K.VerifyingKey.from_pem(enc)  # noqa
+            pred = "pub"
+        elif r == "sec1":
+            enc = ossl.priv_to_sec1(name, d)
+            fn = lambda enc=enc: K.SigningKey.from_der(enc)  # noqa
+            pred = "priv"
+        elif r == "pkcs8":
+            enc = ossl.priv_to_pkcs8(name, d)
+            fn = lambda enc=enc: K.SigningKey.from_der(enc)  # noqa
+            pred = "priv"
+        else:
+            enc = ossl.pub_to_spki(name, pub)
+            fn = lambda enc=enc: ns.plugin.PublicEccKeyProxy.create_from_der_fmt(enc).public_key  # noqa
+            pred = "pub"
+        bodies.append(fn)
+        meta.append((cv, d, pub, r, pred, enc))
+        ctx.distinct("firstuse", cv.name, r, d)
+
+    def judge(k, cv, d, pub, pred):
+        vk = k.verifying_key if pred == "priv" else k
+        if pred == "priv" and int(k.privkey.secret_multiplier) != d:
+            return False
+        return (int(vk.pubkey.point.x()), int(vk.pubkey.point.y())) == pub and vk.curve == cv
+
+    owners = [ns.curves, ns.der, K.VerifyingKey, K.SigningKey]
+    codes = yieldrun.code_objects_of(*owners)
+    results, yields = yieldrun.run_concurrently(bodies, codes, sleep=0.0002, max_yields=6000, timeout=120)
+    ctx.add_extra("yield_points_hit_in_first_use_runs", yields)
+    ctx.bin("first_decodes_of_the_process_made_by_concurrent_threads")
+    ctx.bin("first_use_threads_%d" % nthreads)
+    for (cv, d, pub, r, pred, enc), res in zip(meta, results):
+        ctx.ev()
+        rp = {"kind": "firstuse", "i": i, "curve": cv.name, "route": r}
+        if res is None:
+            ctx.note("first-use decode still running after the watchdog (inconclusive)")
+            continue
+        ctx.mon("decode")
+        ctx.mon("oracle:concurrent_first_decode_vs_openssl_key")
+        if res[0] == "exc":
+            ctx.violation("valid_encoding_rejected_when_first_decodes_run_concurrently", {"curve": cv.name, "route": r, "exc": res[1][:200], "threads": nthreads}, rp)
+        elif not judge(res[1], cv, d, pub, pred):
+            ctx.violation("decoded_key_differs_when_first_decodes_run_concurrently", {"curve": cv.name, "route": r, "threads": nthreads}, rp)
+    for (cv, d, pub, r, pred, enc), fn in zip(meta, bodies):
+        ctx.ev()
+        try:
+            if not judge(fn(), cv, d, pub, pred):
+                ctx.violation("decoded_key_differs_after_concurrent_first_use", {"curve": cv.name, "route": r}, {"kind": "firstuse", "i": i})
+        except Exception as e:
+            ctx.violation("valid_encoding_rejected_after_concurrent_first_use", {"curve": cv.name, "route": r, "exc": fmt_exc(e)}, {"kind": "firstuse", "i": i})
+
+
 def run_shard(spec, ctx):
     ns = load()
     k = spec["kind"]
-    if k == "roundtrip":
+    if k == "firstuse":
+        run_firstuse(ns, ctx, spec)
+    elif k == "roundtrip":
         run_roundtrip(ns, ctx, spec)
     elif k == "mutate":
         run_mutate(ns, ctx, spec)
@@ -477,7 +563,9 @@ def run_shard(spec, ctx):
 def replay(rec, ctx):
     ns = load()
     names = [c.name for c in weierstrass_curves(ns)]
-    if rec.get("kind") == "bec2":
+    if rec.get("kind") == "firstuse":
+        run_firstuse(ns, ctx, {"i": rec["i"]})
+    elif rec.get("kind") == "bec2":
         run_bec2(ns, ctx, {})
     elif rec.get("kind") == "mutate":
         run_mutate(ns, ctx, {"curve": names.index(rec["curve"]), "part": 0, "parts": 1})
